@@ -188,14 +188,70 @@ func checkURISafeSet(c *Ctx, e *bsetEngine) {
 		c.Undecided("URI-SAFESET", "safeSet", fn.Pos(), "no constant safe-set membership test found in NormalizeURI")
 	}
 	// 2. every write into the builder is one of the recognised classes
-	var rangeRune ssa.Value // the rune extracted from the range-over-string iterator
+	// the current input rune: the rune extracted from the range-over-string iterator, or the rune decoded at the front of
+	// a tail s[i:] of the input string
+	curRunes := map[ssa.Value]bool{}
 	eachInstr(fn, func(in ssa.Instruction) {
-		if ex, ok := in.(*ssa.Extract); ok && ex.Index == 2 {
-			if _, ok := ex.Tuple.(*ssa.Next); ok {
-				rangeRune = ex
+		ex, ok := in.(*ssa.Extract)
+		if !ok {
+			return
+		}
+		if _, ok := ex.Tuple.(*ssa.Next); ok && ex.Index == 2 {
+			curRunes[ex] = true
+		}
+		if dc, ok := ex.Tuple.(*ssa.Call); ok && ex.Index == 0 && dc.Call.StaticCallee() != nil && dc.Call.StaticCallee().String() == "unicode/utf8.DecodeRuneInString" {
+			if sl, ok := dc.Call.Args[0].(*ssa.Slice); ok && len(fn.Params) > 0 && sl.X == ssa.Value(fn.Params[0]) && sl.High == nil {
+				curRunes[ex] = true
 			}
 		}
 	})
+	// validatedEscapeCopy: s[L:L+3] of the input, written where the current rune is known to be '%' and two isHex tests have succeeded
+	validatedEscapeCopy := func(arg ssa.Value, at *ssa.BasicBlock) (bool, string) {
+		sl, ok := arg.(*ssa.Slice)
+		if !ok || len(fn.Params) == 0 || sl.X != ssa.Value(fn.Params[0]) || sl.Low == nil || sl.High == nil {
+			return false, "non-constant string written: " + arg.String()
+		}
+		lb, lk := linTerm(sl.Low)
+		hb, hk := linTerm(sl.High)
+		if !(lb == hb || sameTerm(lb, hb)) || hk-lk != 3 {
+			return false, "a piece of the input that is not three bytes long is copied verbatim"
+		}
+		isHex := c.P.Func("isHex")
+		hexTests, pct := 0, false
+		for _, b := range fn.Blocks {
+			iff := blockIf(b)
+			if iff == nil {
+				continue
+			}
+			if call, ok := iff.Cond.(*ssa.Call); ok && isHex != nil && call.Call.StaticCallee() == isHex && edgeDominates(b, 0, at) {
+				var strX, strIdx ssa.Value
+				switch y := call.Call.Args[0].(type) {
+				case *ssa.Lookup:
+					strX, strIdx = y.X, y.Index
+				case *ssa.Index:
+					strX, strIdx = y.X, y.Index
+				}
+				if strX != nil && strX == ssa.Value(fn.Params[0]) {
+					ib, ik := linTerm(strIdx)
+					if (ib == lb || sameTerm(ib, lb)) && (ik-lk == 1 || ik-lk == 2) {
+						hexTests++
+					}
+				}
+			}
+			if bo, ok := iff.Cond.(*ssa.BinOp); ok && bo.Op == token.EQL && curRunes[bo.X] {
+				if v, isC := constInt(bo.Y); isC && v == '%' && edgeDominates(b, 0, at) {
+					pct = true
+				}
+			}
+		}
+		if hexTests < 2 {
+			return false, fmt.Sprintf("three input bytes copied verbatim after only %d isHex tests on the two bytes behind the first", hexTests)
+		}
+		if !pct {
+			return false, "three input bytes copied verbatim where the current rune is not known to be '%'"
+		}
+		return true, "a validated escape (current rune '%', two isHex tests on the next two bytes) copied verbatim"
+	}
 	writes := 0
 	eachInstr(fn, func(in ssa.Instruction) {
 		call, ok := in.(*ssa.Call)
@@ -226,21 +282,22 @@ func checkURISafeSet(c *Ctx, e *bsetEngine) {
 				c.Check(good, "URI-SAFESET", key, call.Pos(), fmt.Sprintf("constant string %q must consist of safe characters and well-formed escapes", s))
 				return
 			}
-			c.Viol("URI-SAFESET", key, call.Pos(), "non-constant string written: "+arg.String())
+			okEsc, why := validatedEscapeCopy(arg, call.Block())
+			c.Check(okEsc, "URI-SAFESET", key, call.Pos(), why)
 		case "WriteRune":
-			if arg != rangeRune {
+			if !curRunes[arg] {
 				c.Viol("URI-SAFESET", key, call.Pos(), "rune written is not the current input rune: "+arg.String())
 				return
 			}
 			// the write must be guarded: dominated by a true edge whose condition involves the safe-set test / letter / digit,
 			// or by the skip>0 edge (validated escape digits).
-			ok, why := runeWriteGuarded(c, e, call, rangeRune)
+			ok, why := runeWriteGuarded(c, e, call, arg)
 			c.Check(ok, "URI-SAFESET", key, call.Pos(), why)
 		default:
 			c.Viol("URI-SAFESET", key, call.Pos(), "unrecognised builder write "+cal.Name())
 		}
 	})
-	if writes < 5 {
+	if writes < 4 {
 		c.Undecided("URI-SAFESET", "writes", fn.Pos(), fmt.Sprintf("only %d builder writes recognised; NormalizeURI no longer has the analysed shape", writes))
 	}
 }
